@@ -1,8 +1,1599 @@
-//! C12 — not implemented yet.
+//! C12 — loading any model text yields a usable model or an error, never a crash.
+//!
+//! Validation part (the property's quantifier is a fault enumeration): every single structural
+//! fault — delete / duplicate / empty / swap an element, an attribute or a text node; retarget
+//! an `href` (or a `typeRef`) to a missing, to its own, to an ancestor or to another element —
+//! at every position of the example models shipped under `/repo/examples` (the `.dmn` files and
+//! the `EX_*` decision tables of `examples/src/examples/valid.rs`, read as text at run time and
+//! rendered as one-decision models) and of generated models; pairs of faults and byte-level
+//! corruption in the thorough tier.  Each case runs `parse → ModelEvaluator::new →
+//! evaluate_invocable` for every invocable, inside child processes of this executable
+//! (`vharness child c12`, batches of cases, every case under `catch_unwind`), so that a stack
+//! overflow or abort is an observation: the batch is resumed after the case that killed it.
+//!
+//! Model part: `Dmn.MB` (decision-table builder index pairing, fuel-bounded traversals) through
+//! the driver, compared with the implementation on generated table shapes and requirement graphs.
 
-use crate::report::Report;
+use crate::model::Model;
+use crate::report::{Kind, Report};
+use crate::rng::Rng;
+use crate::sexp::Sexp;
+use crate::util;
 use crate::Cfg;
+use dmntk_feel::context::FeelContext;
+use dmntk_feel::values::Value;
+use dmntk_feel::Name;
+use dmntk_model_evaluator::ModelEvaluator;
+use serde_json::{json, Value as J};
+use std::sync::Mutex;
 
-pub fn run(_cfg: &Cfg) -> Report {
-  Report::new("C12", "not implemented")
+// ------------------------------------------------------------------------------------------
+// a small XML scanner (element / attribute / text positions in the original text)
+// ------------------------------------------------------------------------------------------
+
+#[derive(Debug, Clone)]
+pub struct Attr {
+  pub name: String,
+  /// start of the blank(s) before the name
+  pub full_start: usize,
+  /// value without quotes
+  pub val_start: usize,
+  pub val_end: usize,
+  /// after the closing quote
+  pub full_end: usize,
+}
+
+#[derive(Debug, Clone)]
+pub struct Elem {
+  pub name: String,
+  pub start: usize,
+  /// after `>` of the start tag
+  pub open_end: usize,
+  /// start of `</name>` (== open_end for `<x/>`)
+  pub close_start: usize,
+  /// after the end tag
+  pub end: usize,
+  pub attrs: Vec<Attr>,
+  pub parent: Option<usize>,
+  pub children: Vec<usize>,
+  pub self_closing: bool,
+}
+
+#[derive(Debug, Clone)]
+pub struct Text {
+  pub start: usize,
+  pub end: usize,
+  pub parent: usize,
+}
+
+pub struct Doc {
+  pub elems: Vec<Elem>,
+  pub texts: Vec<Text>,
+}
+
+fn local(name: &str) -> &str {
+  name.rsplit(':').next().unwrap_or(name)
+}
+
+pub fn scan(xml: &str) -> Option<Doc> {
+  let b = xml.as_bytes();
+  let mut elems: Vec<Elem> = vec![];
+  let mut texts: Vec<Text> = vec![];
+  let mut stack: Vec<usize> = vec![];
+  let mut i = 0;
+  while i < b.len() {
+    if b[i] == b'<' {
+      if xml[i..].starts_with("<?") {
+        i = i + xml[i..].find("?>")? + 2;
+      } else if xml[i..].starts_with("<!--") {
+        i = i + xml[i..].find("-->")? + 3;
+      } else if xml[i..].starts_with("<![CDATA[") {
+        let e = i + xml[i..].find("]]>")? + 3;
+        if let Some(&p) = stack.last() {
+          texts.push(Text { start: i, end: e, parent: p });
+        }
+        i = e;
+      } else if xml[i..].starts_with("<!") {
+        i = i + xml[i..].find('>')? + 1;
+      } else if xml[i..].starts_with("</") {
+        let e = i + xml[i..].find('>')? + 1;
+        let idx = stack.pop()?;
+        elems[idx].close_start = i;
+        elems[idx].end = e;
+        i = e;
+      } else {
+        // start tag
+        let mut j = i + 1;
+        while j < b.len() && !b[j].is_ascii_whitespace() && b[j] != b'>' && b[j] != b'/' {
+          j += 1;
+        }
+        let name = xml[i + 1..j].to_string();
+        let mut attrs = vec![];
+        let mut self_closing = false;
+        loop {
+          let ws = j;
+          while j < b.len() && b[j].is_ascii_whitespace() {
+            j += 1;
+          }
+          if j >= b.len() {
+            return None;
+          }
+          if b[j] == b'>' {
+            j += 1;
+            break;
+          }
+          if b[j] == b'/' {
+            if j + 1 < b.len() && b[j + 1] == b'>' {
+              self_closing = true;
+              j += 2;
+              break;
+            }
+            return None;
+          }
+          let ns = j;
+          while j < b.len() && b[j] != b'=' && !b[j].is_ascii_whitespace() {
+            j += 1;
+          }
+          let an = xml[ns..j].to_string();
+          while j < b.len() && b[j].is_ascii_whitespace() {
+            j += 1;
+          }
+          if j >= b.len() || b[j] != b'=' {
+            return None;
+          }
+          j += 1;
+          while j < b.len() && b[j].is_ascii_whitespace() {
+            j += 1;
+          }
+          if j >= b.len() || (b[j] != b'"' && b[j] != b'\'') {
+            return None;
+          }
+          let q = b[j];
+          let vs = j + 1;
+          let mut k = vs;
+          while k < b.len() && b[k] != q {
+            k += 1;
+          }
+          if k >= b.len() {
+            return None;
+          }
+          attrs.push(Attr { name: an, full_start: ws, val_start: vs, val_end: k, full_end: k + 1 });
+          j = k + 1;
+        }
+        let idx = elems.len();
+        let parent = stack.last().copied();
+        if let Some(p) = parent {
+          elems[p].children.push(idx);
+        }
+        elems.push(Elem { name, start: i, open_end: j, close_start: j, end: j, attrs, parent, children: vec![], self_closing });
+        if !self_closing {
+          stack.push(idx);
+        }
+        i = j;
+      }
+    } else {
+      let mut j = i;
+      while j < b.len() && b[j] != b'<' {
+        j += 1;
+      }
+      if let Some(&p) = stack.last() {
+        let t = &xml[i..j];
+        if !t.trim().is_empty() {
+          let lead = t.len() - t.trim_start().len();
+          let trail = t.len() - t.trim_end().len();
+          texts.push(Text { start: i + lead, end: j - trail, parent: p });
+        }
+      }
+      i = j;
+    }
+  }
+  if !stack.is_empty() || elems.is_empty() {
+    return None;
+  }
+  Some(Doc { elems, texts })
+}
+
+// ------------------------------------------------------------------------------------------
+// faults
+// ------------------------------------------------------------------------------------------
+
+#[derive(Debug, Clone)]
+pub struct Fault {
+  /// e.g. `element:delete`, `href:own`
+  pub kind: String,
+  /// where (element name / attribute name and offset)
+  pub at: String,
+  /// non-overlapping replacements `(start, end, text)` on the base text
+  pub edits: Vec<(usize, usize, String)>,
+}
+
+pub fn apply(base: &str, edits: &[(usize, usize, String)]) -> String {
+  let mut es: Vec<&(usize, usize, String)> = edits.iter().collect();
+  es.sort_by_key(|e| e.0);
+  let mut out = String::with_capacity(base.len() + 64);
+  let mut pos = 0;
+  for (s, e, r) in es {
+    if *s < pos || *e < *s || *e > base.len() {
+      continue; // overlapping pair: the later edit is dropped
+    }
+    out.push_str(&base[pos..*s]);
+    out.push_str(r);
+    pos = *e;
+  }
+  out.push_str(&base[pos..]);
+  out
+}
+
+const DRG: [&str; 5] = ["decision", "businessKnowledgeModel", "decisionService", "inputData", "knowledgeSource"];
+
+pub fn faults(xml: &str, doc: &Doc) -> Vec<Fault> {
+  let mut fs = vec![];
+  let ids: Vec<String> = doc
+    .elems
+    .iter()
+    .filter_map(|e| e.attrs.iter().find(|a| a.name == "id").map(|a| xml[a.val_start..a.val_end].to_string()))
+    .collect();
+  let item_names: Vec<String> = doc
+    .elems
+    .iter()
+    .filter(|e| local(&e.name) == "itemDefinition")
+    .filter_map(|e| e.attrs.iter().find(|a| a.name == "name").map(|a| xml[a.val_start..a.val_end].to_string()))
+    .collect();
+  for (ei, e) in doc.elems.iter().enumerate() {
+    let at = format!("<{}>@{}", e.name, e.start);
+    let whole = xml[e.start..e.end].to_string();
+    fs.push(Fault { kind: "element:delete".into(), at: at.clone(), edits: vec![(e.start, e.end, String::new())] });
+    fs.push(Fault { kind: "element:duplicate".into(), at: at.clone(), edits: vec![(e.end, e.end, whole.clone())] });
+    if !e.self_closing && e.close_start > e.open_end {
+      fs.push(Fault { kind: "element:empty".into(), at: at.clone(), edits: vec![(e.open_end, e.close_start, String::new())] });
+    }
+    if let Some(p) = e.parent {
+      let sibs = &doc.elems[p].children;
+      if let Some(pos) = sibs.iter().position(|&c| c == ei) {
+        if pos + 1 < sibs.len() {
+          let n = &doc.elems[sibs[pos + 1]];
+          fs.push(Fault {
+            kind: "element:swap".into(),
+            at: at.clone(),
+            edits: vec![(e.start, e.end, xml[n.start..n.end].to_string()), (n.start, n.end, whole.clone())],
+          });
+        }
+      }
+    }
+    for (ai, a) in e.attrs.iter().enumerate() {
+      let aat = format!("<{}> {}@{}", e.name, a.name, a.full_start);
+      fs.push(Fault { kind: "attribute:delete".into(), at: aat.clone(), edits: vec![(a.full_start, a.full_end, String::new())] });
+      fs.push(Fault { kind: "attribute:duplicate".into(), at: aat.clone(), edits: vec![(a.full_end, a.full_end, xml[a.full_start..a.full_end].to_string())] });
+      fs.push(Fault { kind: "attribute:empty".into(), at: aat.clone(), edits: vec![(a.val_start, a.val_end, String::new())] });
+      if ai + 1 < e.attrs.len() {
+        let n = &e.attrs[ai + 1];
+        fs.push(Fault {
+          kind: "attribute:swap".into(),
+          at: aat.clone(),
+          edits: vec![(a.val_start, a.val_end, xml[n.val_start..n.val_end].to_string()), (n.val_start, n.val_end, xml[a.val_start..a.val_end].to_string())],
+        });
+      }
+      if a.name == "href" {
+        fs.push(Fault { kind: "href:missing".into(), at: aat.clone(), edits: vec![(a.val_start, a.val_end, "#_no_such_element_".into())] });
+        // ancestors that carry an id: the nearest DRG element is "its own" element
+        let mut anc = e.parent;
+        let mut own_done = false;
+        while let Some(p) = anc {
+          let pe = &doc.elems[p];
+          if let Some(ida) = pe.attrs.iter().find(|x| x.name == "id") {
+            let id = &xml[ida.val_start..ida.val_end];
+            let kind = if !own_done && DRG.contains(&local(&pe.name)) {
+              own_done = true;
+              "href:own"
+            } else {
+              "href:ancestor"
+            };
+            fs.push(Fault { kind: kind.into(), at: aat.clone(), edits: vec![(a.val_start, a.val_end, format!("#{}", id))] });
+          }
+          anc = pe.parent;
+        }
+        let cur = &xml[a.val_start..a.val_end];
+        for id in &ids {
+          if format!("#{}", id) != cur {
+            fs.push(Fault { kind: "href:other".into(), at: aat.clone(), edits: vec![(a.val_start, a.val_end, format!("#{}", id))] });
+          }
+        }
+      }
+      if a.name == "typeRef" {
+        fs.push(Fault { kind: "typeRef:missing".into(), at: aat.clone(), edits: vec![(a.val_start, a.val_end, "tNoSuchType".into())] });
+        for n in &item_names {
+          if n != &xml[a.val_start..a.val_end] {
+            fs.push(Fault { kind: "typeRef:other".into(), at: aat.clone(), edits: vec![(a.val_start, a.val_end, n.clone())] });
+          }
+        }
+      }
+    }
+  }
+  for (ti, t) in doc.texts.iter().enumerate() {
+    let p = &doc.elems[t.parent];
+    let at = format!("text of <{}>@{}", p.name, t.start);
+    let s = xml[t.start..t.end].to_string();
+    fs.push(Fault { kind: "text:delete".into(), at: at.clone(), edits: vec![(t.start, t.end, String::new())] });
+    fs.push(Fault { kind: "text:duplicate".into(), at: at.clone(), edits: vec![(t.end, t.end, s.clone())] });
+    fs.push(Fault { kind: "text:empty".into(), at: at.clone(), edits: vec![(t.start, t.end, " ".into())] });
+    if ti + 1 < doc.texts.len() {
+      let n = &doc.texts[ti + 1];
+      fs.push(Fault {
+        kind: "text:swap".into(),
+        at: at.clone(),
+        edits: vec![(t.start, t.end, xml[n.start..n.end].to_string()), (n.start, n.end, s.clone())],
+      });
+    }
+    if local(&p.name) == "typeRef" {
+      fs.push(Fault { kind: "typeRef:missing".into(), at: at.clone(), edits: vec![(t.start, t.end, "tNoSuchType".into())] });
+      // the enclosing item definition's own name (self reference) and every other one
+      let mut anc = p.parent;
+      let mut own: Option<String> = None;
+      while let Some(q) = anc {
+        let qe = &doc.elems[q];
+        if local(&qe.name) == "itemDefinition" {
+          own = qe.attrs.iter().find(|x| x.name == "name").map(|x| xml[x.val_start..x.val_end].to_string());
+        }
+        anc = qe.parent;
+      }
+      if let Some(o) = &own {
+        fs.push(Fault { kind: "typeRef:own".into(), at: at.clone(), edits: vec![(t.start, t.end, o.clone())] });
+      }
+      for n in &item_names {
+        if Some(n) != own.as_ref() && n != &s {
+          fs.push(Fault { kind: "typeRef:other".into(), at: at.clone(), edits: vec![(t.start, t.end, n.clone())] });
+        }
+      }
+    }
+  }
+  fs
+}
+
+// ------------------------------------------------------------------------------------------
+// the child: runs a batch of cases on one base text
+// ------------------------------------------------------------------------------------------
+
+static LAST_PANIC: Mutex<String> = Mutex::new(String::new());
+
+fn strip_site(file: &str, line: u32) -> String {
+  let f = file.strip_prefix("/repo/").unwrap_or(file);
+  // registry / toolchain paths: keep the crate-relative tail
+  let f = match f.find("/src/") {
+    Some(p) if f.starts_with('/') => {
+      let head = &f[..p];
+      let krate = head.rsplit('/').next().unwrap_or("");
+      format!("{}{}", krate, &f[p..])
+    }
+    _ => f.to_string(),
+  };
+  format!("{}:{}", f, line)
+}
+
+/// Input contexts used for every invocable: empty, and every input-data / parameter name
+/// bound to a value of its declared built-in type (a number otherwise).
+fn contexts(defs: &dmntk_model::model::Definitions) -> Vec<FeelContext> {
+  use dmntk_model::model::{NamedElement, RequiredVariable};
+  let scope = dmntk_feel::Scope::default();
+  let ev = |t: &str| -> Value {
+    match dmntk_feel_parser::parse_expression(&scope, t, false).ok().and_then(|n| dmntk_feel_evaluator::evaluate(&scope, &n).ok()) {
+      Some(v) => v,
+      None => Value::Null(None),
+    }
+  };
+  let mut typed = FeelContext::default();
+  let mut nums = FeelContext::default();
+  for id in defs.input_data() {
+    let name: Name = id.name().into();
+    let v = match id.variable().type_ref().as_deref() {
+      Some("string") => ev("\"a\""),
+      Some("boolean") => ev("true"),
+      Some("date") => ev("date(\"2020-01-02\")"),
+      Some("time") => ev("time(\"10:11:12\")"),
+      Some("dateTime") => ev("date and time(\"2020-01-02T10:11:12\")"),
+      Some("dayTimeDuration") => ev("duration(\"P1D\")"),
+      Some("yearMonthDuration") => ev("duration(\"P1Y\")"),
+      _ => ev("1"),
+    };
+    typed.set_entry(&name, v);
+    nums.set_entry(&name, ev("[1, 2]"));
+  }
+  vec![FeelContext::default(), typed, nums]
+}
+
+fn run_one(text: &str, only: Option<&str>, progress: &mut dyn FnMut(&str)) -> String {
+  use dmntk_model::model::NamedElement;
+  *LAST_PANIC.lock().unwrap() = String::new();
+  progress("parse");
+  let parsed = util::guarded(|| dmntk_model::parse(text));
+  let defs = match parsed {
+    Err(_) => return format!("panic-parse\t{}", LAST_PANIC.lock().unwrap()),
+    Ok(Err(_)) => return "parse-error\t".to_string(),
+    Ok(Ok(d)) => d,
+  };
+  progress("build");
+  let built = util::guarded(|| ModelEvaluator::new(&defs));
+  let me = match built {
+    Err(_) => return format!("panic-build\t{}", LAST_PANIC.lock().unwrap()),
+    Ok(Err(_)) => return "build-error\t".to_string(),
+    Ok(Ok(m)) => m,
+  };
+  let mut names: Vec<String> = vec![];
+  for d in defs.decisions() {
+    names.push(d.name().to_string());
+  }
+  for d in defs.business_knowledge_models() {
+    names.push(d.name().to_string());
+  }
+  for d in defs.decision_services() {
+    names.push(d.name().to_string());
+  }
+  let ctxs = contexts(&defs);
+  let mut n = 0;
+  if let Some(o) = only {
+    names.retain(|x| x == o);
+  }
+  for name in &names {
+    progress(&format!("eval {}", name.replace(['\t', '\n'], " ")));
+    for c in &ctxs {
+      let r = util::guarded(|| me.evaluate_invocable(name, c));
+      match r {
+        Ok(_) => n += 1,
+        Err(_) => return format!("panic-eval\t{}", LAST_PANIC.lock().unwrap()),
+      }
+    }
+  }
+  format!("ok\t{}", n)
+}
+
+/// `vharness child c12 <progress-file>`: stdin = JSON lines; first `{"base": text}`, then
+/// `{"id": n, "edits": [[start, end, text]…]}`. Progress goes to the file, one line per step
+/// (`start id`, `stage id <stage>`, `done id <stage> <detail>`), flushed before the step runs,
+/// so that the parent knows the case and the stage at which the process died.
+pub fn child(args: &[String], input: &str) -> i32 {
+  use std::io::Write;
+  std::panic::set_hook(Box::new(|info| {
+    if let Some(l) = info.location() {
+      if let Ok(mut g) = LAST_PANIC.lock() {
+        *g = strip_site(l.file(), l.line());
+      }
+    }
+  }));
+  let path = match args.get(1) {
+    Some(p) => p.clone(),
+    None => return 2,
+  };
+  let mut out = match std::fs::File::create(&path) {
+    Ok(f) => f,
+    Err(_) => return 2,
+  };
+  let mut lines = input.lines();
+  let base: String = match lines.next().and_then(|l| serde_json::from_str::<J>(l).ok()) {
+    Some(j) => j["base"].as_str().unwrap_or("").to_string(),
+    None => return 2,
+  };
+  for l in lines {
+    let j: J = match serde_json::from_str(l) {
+      Ok(j) => j,
+      Err(_) => continue,
+    };
+    let id = j["id"].as_u64().unwrap_or(0);
+    let edits: Vec<(usize, usize, String)> = j["edits"]
+      .as_array()
+      .map(|a| a.iter().map(|e| (e[0].as_u64().unwrap_or(0) as usize, e[1].as_u64().unwrap_or(0) as usize, e[2].as_str().unwrap_or("").to_string())).collect())
+      .unwrap_or_default();
+    let text = apply(&base, &edits);
+    let only: Option<String> = j["only"].as_str().map(|s| s.to_string());
+    let _ = writeln!(out, "start\t{}", id);
+    let _ = out.flush();
+    let r = run_one(&text, only.as_deref(), &mut |stage: &str| {
+      let _ = writeln!(out, "stage\t{}\t{}", id, stage);
+      let _ = out.flush();
+    });
+    let _ = writeln!(out, "done\t{}\t{}", id, r);
+    let _ = out.flush();
+  }
+  0
+}
+
+// ------------------------------------------------------------------------------------------
+// the parent: batches, resumption after a crash
+// ------------------------------------------------------------------------------------------
+
+#[derive(Debug, Clone)]
+pub struct Obs {
+  pub stage: String,
+  pub detail: String,
+}
+
+/// Runs the cases `(id, edits)` on `base` in child processes; a case that kills the child is
+/// recorded as `abort:<how>` and the batch resumes after it; a batch that times out is split.
+pub fn run_cases(base: &str, cases: &[(usize, Vec<(usize, usize, String)>)], out: &mut Vec<(usize, Obs)>) {
+  run_cases_only(base, cases, &[], out)
+}
+
+/// As `run_cases`; `only[k]` (when given) restricts case `k` to one invocable name (`-`: none).
+pub fn run_cases_only(base: &str, cases: &[(usize, Vec<(usize, usize, String)>)], only: &[String], out: &mut Vec<(usize, Obs)>) {
+  const BATCH: usize = 400;
+  let mut queue: Vec<Vec<(usize, Vec<(usize, usize, String)>)>> = cases.chunks(BATCH).map(|c| c.to_vec()).collect();
+  queue.reverse();
+  while let Some(batch) = queue.pop() {
+    if batch.is_empty() {
+      continue;
+    }
+    let mut stdin = String::new();
+    stdin.push_str(&json!({ "base": base }).to_string());
+    stdin.push('\n');
+    for (id, edits) in &batch {
+      let es: Vec<J> = edits.iter().map(|(s, e, r)| json!([s, e, r])).collect();
+      match only.get(*id) {
+        Some(o) => stdin.push_str(&json!({"id": id, "edits": es, "only": o}).to_string()),
+        None => stdin.push_str(&json!({"id": id, "edits": es}).to_string()),
+      }
+      stdin.push('\n');
+    }
+    let timeout = 20_000 + 150 * batch.len() as u64;
+    let pfile = progress_file();
+    let (desc, _) = util::child(&["c12", &pfile], &stdin, timeout);
+    let progress = std::fs::read_to_string(&pfile).unwrap_or_default();
+    let _ = std::fs::remove_file(&pfile);
+    let mut done = std::collections::HashSet::new();
+    let mut started: Option<(usize, String)> = None;
+    for l in progress.lines() {
+      let parts: Vec<&str> = l.split('\t').collect();
+      match parts.as_slice() {
+        ["start", id] => started = id.parse().ok().map(|i| (i, "start".to_string())),
+        ["stage", id, st] => started = id.parse().ok().map(|i| (i, st.to_string())),
+        ["done", id, stage, detail] => {
+          if let Ok(id) = id.parse::<usize>() {
+            done.insert(id);
+            out.push((id, Obs { stage: stage.to_string(), detail: detail.to_string() }));
+            started = None;
+          }
+        }
+        ["done", id, stage] => {
+          if let Ok(id) = id.parse::<usize>() {
+            done.insert(id);
+            out.push((id, Obs { stage: stage.to_string(), detail: String::new() }));
+            started = None;
+          }
+        }
+        _ => {}
+      }
+    }
+    if desc != "ok" {
+      // the child died (or hung) while running `started`
+      let crashed = started.clone().or_else(|| batch.iter().map(|c| c.0).find(|id| !done.contains(id)).map(|i| (i, "start".to_string())));
+      if let Some((cid, st)) = crashed {
+        let stage = if desc == "timeout" { "timeout" } else { "abort" };
+        out.push((cid, Obs { stage: stage.into(), detail: format!("{} during {}", desc, st) }));
+        done.insert(cid);
+      }
+      let rest: Vec<_> = batch.iter().filter(|c| !done.contains(&c.0)).cloned().collect();
+      if !rest.is_empty() && rest.len() < batch.len() {
+        queue.push(rest);
+      } else if !rest.is_empty() {
+        for c in rest {
+          out.push((c.0, Obs { stage: "abort".into(), detail: format!("{} (batch could not be resumed)", desc) }));
+        }
+      }
+    }
+  }
+}
+
+fn progress_file() -> String {
+  static N: std::sync::atomic::AtomicUsize = std::sync::atomic::AtomicUsize::new(0);
+  let n = N.fetch_add(1, std::sync::atomic::Ordering::SeqCst);
+  let mut dir = std::env::current_dir().unwrap_or_else(|_| std::env::temp_dir());
+  dir.push(".build");
+  dir.push("c12-tmp");
+  if std::fs::create_dir_all(&dir).is_err() {
+    dir = std::env::temp_dir();
+  }
+  dir.push(format!("{}-{}.progress", std::process::id(), n));
+  dir.to_string_lossy().to_string()
+}
+
+// ------------------------------------------------------------------------------------------
+// sources of base models
+// ------------------------------------------------------------------------------------------
+
+fn collect_dmn(dir: &std::path::Path, out: &mut Vec<(String, String)>) {
+  if let Ok(rd) = std::fs::read_dir(dir) {
+    let mut entries: Vec<_> = rd.filter_map(|e| e.ok()).collect();
+    entries.sort_by_key(|e| e.path());
+    for e in entries {
+      let p = e.path();
+      if p.is_dir() {
+        collect_dmn(&p, out);
+      } else if p.extension().map(|x| x == "dmn").unwrap_or(false) {
+        if let Ok(t) = std::fs::read_to_string(&p) {
+          out.push((p.to_string_lossy().to_string(), t));
+        }
+      }
+    }
+  }
+}
+
+/// The `EX_*` decision tables of `valid.rs` (box-drawing text), recognised and rendered as
+/// one-decision XML models.
+fn ex_tables() -> Vec<(String, String)> {
+  let mut res = vec![];
+  let src = match std::fs::read_to_string("/repo/examples/src/examples/valid.rs") {
+    Ok(s) => s,
+    Err(_) => return res,
+  };
+  let mut rest = src.as_str();
+  while let Some(p) = rest.find("pub const EX_") {
+    let tail = &rest[p..];
+    let name_end = tail.find(':').unwrap_or(0);
+    let name = tail[10..name_end].to_string();
+    let (open, close) = match tail.find("r#\"") {
+      Some(o) => match tail[o + 3..].find("\"#") {
+        Some(c) => (o + 3, o + 3 + c),
+        None => break,
+      },
+      None => break,
+    };
+    let text = &tail[open..close];
+    if let Ok(Ok(dt)) = util::guarded(|| dmntk_recognizer::build(text)) {
+      res.push((format!("valid.rs:{}", name), decision_table_model_xml(&dt)));
+    }
+    rest = &tail[close..];
+  }
+  res
+}
+
+fn esc(s: &str) -> String {
+  crate::c03::xml_escape(s)
+}
+
+/// Renders a recognised `DecisionTable` as a model with one decision and typed-less inputs.
+fn decision_table_model_xml(dt: &dmntk_model::model::DecisionTable) -> String {
+  use dmntk_model::model::{BuiltinAggregator, HitPolicy};
+  let mut s = String::new();
+  s.push_str(r#"<?xml version="1.0" encoding="UTF-8"?><definitions namespace="ns" name="m" id="_m" xmlns="https://www.omg.org/spec/DMN/20191111/MODEL/">"#);
+  s.push_str(r#"<decision name="D" id="_d"><variable name="D"/>"#);
+  let (hp, agg) = match dt.hit_policy {
+    HitPolicy::Unique => ("UNIQUE", None),
+    HitPolicy::Any => ("ANY", None),
+    HitPolicy::Priority => ("PRIORITY", None),
+    HitPolicy::First => ("FIRST", None),
+    HitPolicy::RuleOrder => ("RULE ORDER", None),
+    HitPolicy::OutputOrder => ("OUTPUT ORDER", None),
+    HitPolicy::Collect(a) => (
+      "COLLECT",
+      match a {
+        BuiltinAggregator::List => None,
+        BuiltinAggregator::Count => Some("COUNT"),
+        BuiltinAggregator::Sum => Some("SUM"),
+        BuiltinAggregator::Min => Some("MIN"),
+        BuiltinAggregator::Max => Some("MAX"),
+      },
+    ),
+  };
+  s.push_str(&format!("<decisionTable hitPolicy=\"{}\"", hp));
+  if let Some(a) = agg {
+    s.push_str(&format!(" aggregation=\"{}\"", a));
+  }
+  s.push('>');
+  for c in &dt.input_clauses {
+    s.push_str(&format!("<input><inputExpression><text>{}</text></inputExpression>", esc(&c.input_expression)));
+    if let Some(v) = &c.input_values {
+      s.push_str(&format!("<inputValues><text>{}</text></inputValues>", esc(v)));
+    }
+    s.push_str("</input>");
+  }
+  for c in &dt.output_clauses {
+    s.push_str("<output");
+    if let Some(n) = &c.name {
+      s.push_str(&format!(" name=\"{}\"", esc(n)));
+    }
+    s.push('>');
+    if let Some(v) = &c.output_values {
+      s.push_str(&format!("<outputValues><text>{}</text></outputValues>", esc(v)));
+    }
+    if let Some(v) = &c.default_output_entry {
+      s.push_str(&format!("<defaultOutputEntry><text>{}</text></defaultOutputEntry>", esc(v)));
+    }
+    s.push_str("</output>");
+  }
+  for r in &dt.rules {
+    s.push_str("<rule>");
+    for e in &r.input_entries {
+      s.push_str(&format!("<inputEntry><text>{}</text></inputEntry>", esc(&e.text)));
+    }
+    for e in &r.output_entries {
+      s.push_str(&format!("<outputEntry><text>{}</text></outputEntry>", esc(&e.text)));
+    }
+    s.push_str("</rule>");
+  }
+  s.push_str("</decisionTable></decision></definitions>");
+  s
+}
+
+fn model(body: &str) -> String {
+  crate::c17::model_xml("ns", "n", body)
+}
+
+/// Corpus: the witnesses of F11 / F12 (always run first).
+fn corpus() -> Vec<(String, String)> {
+  vec![
+    (
+      "corpus:F11 rule with fewer input entries than input clauses".into(),
+      model(
+        r##"
+  <decision name="T" id="_t"><variable name="T"/>
+    <informationRequirement id="_r1"><requiredInput href="#_i"/></informationRequirement>
+    <decisionTable hitPolicy="UNIQUE"><input><inputExpression><text>X</text></inputExpression></input><input><inputExpression><text>X</text></inputExpression></input>
+      <output/><rule><inputEntry><text>1</text></inputEntry><outputEntry><text>2</text></outputEntry></rule></decisionTable></decision>
+  <inputData name="X" id="_i"><variable typeRef="number" name="X"/></inputData>"##,
+      ),
+    ),
+    (
+      "corpus:F11 rule with fewer output entries than output clauses".into(),
+      model(
+        r##"
+  <decision name="T" id="_t"><variable name="T"/>
+    <informationRequirement id="_r1"><requiredInput href="#_i"/></informationRequirement>
+    <decisionTable hitPolicy="UNIQUE"><input><inputExpression><text>X</text></inputExpression></input>
+      <output name="a"/><output name="b"/><rule><inputEntry><text>1</text></inputEntry><outputEntry><text>2</text></outputEntry></rule></decisionTable></decision>
+  <inputData name="X" id="_i"><variable typeRef="number" name="X"/></inputData>"##,
+      ),
+    ),
+    (
+      "corpus:F11 decision table without output clause".into(),
+      model(
+        r##"
+  <decision name="T" id="_t"><variable name="T"/>
+    <informationRequirement id="_r1"><requiredInput href="#_i"/></informationRequirement>
+    <decisionTable hitPolicy="UNIQUE"><input><inputExpression><text>X</text></inputExpression></input>
+      <rule><inputEntry><text>1</text></inputEntry></rule></decisionTable></decision>
+  <inputData name="X" id="_i"><variable typeRef="number" name="X"/></inputData>"##,
+      ),
+    ),
+    (
+      "corpus:F12 two decisions requiring each other".into(),
+      model(
+        r##"
+  <decision name="A" id="_a"><variable name="A"/><informationRequirement id="_r1"><requiredDecision href="#_b"/></informationRequirement><literalExpression><text>B + 1</text></literalExpression></decision>
+  <decision name="B" id="_b"><variable name="B"/><informationRequirement id="_r2"><requiredDecision href="#_a"/></informationRequirement><literalExpression><text>A + 1</text></literalExpression></decision>"##,
+      ),
+    ),
+    (
+      "corpus:F12 two knowledge models requiring each other".into(),
+      model(
+        r##"
+  <decision name="A" id="_a"><variable name="A"/><knowledgeRequirement id="_k0"><requiredKnowledge href="#_f"/></knowledgeRequirement><literalExpression><text>F(1)</text></literalExpression></decision>
+  <businessKnowledgeModel name="F" id="_f"><variable name="F"/><encapsulatedLogic><formalParameter name="x"/><literalExpression><text>G(x)</text></literalExpression></encapsulatedLogic><knowledgeRequirement id="_k1"><requiredKnowledge href="#_g"/></knowledgeRequirement></businessKnowledgeModel>
+  <businessKnowledgeModel name="G" id="_g"><variable name="G"/><encapsulatedLogic><formalParameter name="x"/><literalExpression><text>F(x)</text></literalExpression></encapsulatedLogic><knowledgeRequirement id="_k2"><requiredKnowledge href="#_f"/></knowledgeRequirement></businessKnowledgeModel>"##,
+      ),
+    ),
+    (
+      "corpus:F12 item definition whose typeRef is itself".into(),
+      model(
+        r##"
+  <itemDefinition name="tA"><typeRef>tA</typeRef></itemDefinition>
+  <decision name="A" id="_a"><variable name="A"/><informationRequirement id="_r1"><requiredInput href="#_i"/></informationRequirement><literalExpression><text>X</text></literalExpression></decision>
+  <inputData name="X" id="_i"><variable typeRef="tA" name="X"/></inputData>"##,
+      ),
+    ),
+  ]
+}
+
+/// Finds a cycle in a directed graph given as adjacency lists over node names.
+fn has_cycle(edges: &std::collections::BTreeMap<String, Vec<String>>) -> bool {
+  fn visit(n: &str, edges: &std::collections::BTreeMap<String, Vec<String>>, state: &mut std::collections::HashMap<String, u8>) -> bool {
+    match state.get(n) {
+      Some(1) => return true,
+      Some(2) => return false,
+      _ => {}
+    }
+    state.insert(n.to_string(), 1);
+    if let Some(ns) = edges.get(n) {
+      for m in ns {
+        if edges.contains_key(m) && visit(m, edges, state) {
+          return true;
+        }
+      }
+    }
+    state.insert(n.to_string(), 2);
+    false
+  }
+  let mut state = std::collections::HashMap::new();
+  edges.keys().any(|k| visit(k, edges, &mut state))
+}
+
+/// Which requirement cycle the (parseable) faulted text contains; computed in the parent only
+/// for cases that killed the child after parsing succeeded there.
+fn diagnose(text: &str, build_stage: bool) -> String {
+  use dmntk_model::model::{DmnElement, NamedElement};
+  use std::collections::BTreeMap;
+  let defs = match util::guarded(|| dmntk_model::parse(text)) {
+    Ok(Ok(d)) => d,
+    _ => return "text does not parse".into(),
+  };
+  let mut found = vec![];
+  let mut dec: BTreeMap<String, Vec<String>> = BTreeMap::new();
+  for d in defs.decisions() {
+    if let Some(id) = d.id() {
+      let mut v = vec![];
+      for r in d.information_requirements() {
+        if let Some(h) = r.required_decision() {
+          let h: &str = h.into();
+          v.push(h.to_string());
+        }
+      }
+      dec.entry(id.clone()).or_default().extend(v);
+    }
+  }
+  if has_cycle(&dec) {
+    found.push("cyclic required decisions");
+  }
+  let mut know: BTreeMap<String, Vec<String>> = BTreeMap::new();
+  for b in defs.business_knowledge_models() {
+    if let Some(id) = b.id() {
+      let mut v = vec![];
+      for r in b.knowledge_requirements() {
+        if let Some(h) = r.required_knowledge() {
+          let h: &str = h.into();
+          v.push(h.to_string());
+        }
+      }
+      know.entry(id.clone()).or_default().extend(v);
+    }
+  }
+  if has_cycle(&know) {
+    found.push("cyclic knowledge requirements");
+  }
+  let mut items: BTreeMap<String, Vec<String>> = BTreeMap::new();
+  fn refs(i: &dmntk_model::model::ItemDefinition, out: &mut Vec<String>) {
+    use dmntk_model::model::Expression;
+    if let Some(t) = i.type_ref() {
+      out.push(t.clone());
+    }
+    for c in i.item_components() {
+      refs(c, out);
+    }
+  }
+  for i in defs.item_definitions() {
+    let mut v = vec![];
+    refs(i, &mut v);
+    items.entry(i.name().to_string()).or_default().extend(v);
+  }
+  if has_cycle(&items) {
+    found.push("cyclic item definition references");
+  }
+  // a decision service whose output/encapsulated decision requires the service as knowledge
+  let mut svc: BTreeMap<String, Vec<String>> = BTreeMap::new();
+  for sv in defs.decision_services() {
+    if let Some(id) = sv.id() {
+      let mut v = vec![];
+      for h in sv.output_decisions().iter().chain(sv.encapsulated_decisions().iter()).chain(sv.input_decisions().iter()) {
+        let h: &str = h.into();
+        v.push(h.to_string());
+      }
+      svc.entry(id.clone()).or_default().extend(v);
+    }
+  }
+  for d in defs.decisions() {
+    if let Some(id) = d.id() {
+      let mut v = dec.get(id).cloned().unwrap_or_default();
+      for r in d.knowledge_requirements() {
+        if let Some(h) = r.required_knowledge() {
+          let h: &str = h.into();
+          v.push(h.to_string());
+        }
+      }
+      svc.entry(id.clone()).or_default().extend(v);
+    }
+  }
+  for (k, v) in &know {
+    svc.entry(k.clone()).or_default().extend(v.clone());
+  }
+  if has_cycle(&svc) && !has_cycle(&dec) && !has_cycle(&know) {
+    found.push("cycle through a decision service");
+  }
+  // one cause per signature: the first that the stage can run into
+  let order: [&str; 4] = if build_stage {
+    ["cyclic knowledge requirements", "cyclic item definition references", "cyclic required decisions", "cycle through a decision service"]
+  } else {
+    ["cyclic required decisions", "cycle through a decision service", "cyclic knowledge requirements", "cyclic item definition references"]
+  };
+  for o in order {
+    if found.contains(&o) {
+      return o.to_string();
+    }
+  }
+  "no requirement cycle found".into()
+}
+
+/// Classifies a crash: specific and stable signature (panic site; for a dead process the stage
+/// it died in and the requirement cycle the faulted text contains).
+fn signature(kind: &str, obs: &Obs, faulted: &str) -> Option<String> {
+  match obs.stage.as_str() {
+    "panic-parse" => Some(format!("panic in dmntk_model::parse at {}", obs.detail)),
+    "panic-build" => Some(format!("panic in ModelEvaluator::new at {}", obs.detail)),
+    "panic-eval" => Some(format!("panic in evaluate_invocable at {}", obs.detail)),
+    "abort" | "timeout" => {
+      let (how, during) = match obs.detail.split_once(" during ") {
+        Some((h, d)) => (h.to_string(), d.to_string()),
+        None => (obs.detail.clone(), "?".to_string()),
+      };
+      let stage = if during.starts_with("eval") {
+        "evaluate_invocable"
+      } else if during == "build" {
+        "ModelEvaluator::new"
+      } else {
+        "dmntk_model::parse"
+      };
+      let diag = if stage == "dmntk_model::parse" { "while parsing".to_string() } else { diagnose(faulted, stage == "ModelEvaluator::new") };
+      let family = kind.split(':').next().unwrap_or(kind);
+      if diag == "no requirement cycle found" {
+        Some(format!("process {} ({}) in {}: {} (fault family '{}')", obs.stage, how, stage, diag, family))
+      } else {
+        Some(format!("process {} ({}) in {}: {}", obs.stage, how, stage, diag))
+      }
+    }
+    _ => None,
+  }
+}
+
+pub fn run(cfg: &Cfg) -> Report {
+  let mut rep = Report::new(
+    "C12",
+    "single structural faults (delete/duplicate/empty/swap of every element, attribute and text node; href and typeRef retargeted to missing/own/ancestor/other) at every position of the shipped example models (/repo/examples/**/*.dmn, EX_* tables of valid.rs rendered as models) and of generated models; each case parse → ModelEvaluator::new → evaluate_invocable for every invocable with three input contexts, in child processes. Quick: seeded ~3 % sample + corpus; thorough: every fault, pairs, byte corruption. Non-trivial: the faulted text differs from the base text; distinct by (base, fault kind, position).",
+  );
+  let thorough = cfg.tier == "thorough";
+  let mut rng = Rng::new(cfg.seed);
+  let mut bases: Vec<(String, String)> = corpus();
+  // further minimised past failures: corpus/C12/*.dmn next to the working directory
+  {
+    let mut extra = vec![];
+    collect_dmn(std::path::Path::new("corpus/C12"), &mut extra);
+    for (n, t) in extra {
+      if !bases.iter().any(|b| b.1 == t) {
+        bases.push((format!("corpus:{}", n), t));
+      }
+    }
+  }
+  let n_corpus = bases.len();
+  let mut files = vec![];
+  collect_dmn(std::path::Path::new("/repo/examples"), &mut files);
+  rep.extra.insert("example_dmn_files".into(), json!(files.len()));
+  bases.append(&mut files);
+  let mut ex = ex_tables();
+  rep.extra.insert("example_ex_tables".into(), json!(ex.len()));
+  bases.append(&mut ex);
+  // generated models: decision tables (C03's generator), typed inputs (C11's generator),
+  // acyclic requirement graphs
+  let n_gen = if thorough { 60 } else { 12 };
+  let mut gen_rng = rng.fork();
+  for k in 0..n_gen {
+    bases.push((format!("generated:table#{}", k), crate::c03::sample_model_xml(&mut gen_rng)));
+    bases.push((format!("generated:types#{}", k), crate::c11::sample_model_xml(&mut gen_rng)));
+    bases.push((format!("generated:graph#{}", k), gen_graph(&mut gen_rng, true).xml));
+  }
+  rep.extra.insert("generated_bases".into(), json!(3 * n_gen));
+  rep.extra.insert("bases".into(), json!(bases.len()));
+
+  // work items: (base index, fault) — sampled in quick
+  struct Work {
+    base: usize,
+    cases: Vec<(usize, Vec<(usize, usize, String)>)>,
+    meta: Vec<(String, String)>,
+  }
+  let mut works: Vec<Work> = vec![];
+  let mut total_faults = 0usize;
+  // the unfaulted bases first: faults are enumerated only on bases that load and evaluate
+  let n_threads = std::thread::available_parallelism().map(|n| n.get()).unwrap_or(4).min(16);
+  let base_obs: Mutex<Vec<Option<Obs>>> = Mutex::new(vec![None; bases.len()]);
+  {
+    let next = std::sync::atomic::AtomicUsize::new(0);
+    std::thread::scope(|s| {
+      for _ in 0..n_threads {
+        s.spawn(|| loop {
+          let k = next.fetch_add(1, std::sync::atomic::Ordering::SeqCst);
+          if k >= bases.len() {
+            break;
+          }
+          let mut out = vec![];
+          run_cases(&bases[k].1, &[(0, vec![])], &mut out);
+          if let Some((_, o)) = out.pop() {
+            base_obs.lock().unwrap()[k] = Some(o);
+          }
+        });
+      }
+    });
+  }
+  let base_obs = base_obs.into_inner().unwrap();
+  for (bi, (bname, text)) in bases.iter().enumerate() {
+    let crashing = match &base_obs[bi] {
+      Some(o) => !matches!(o.stage.as_str(), "ok" | "parse-error" | "build-error"),
+      None => true,
+    };
+    if crashing {
+      let o = base_obs[bi].clone().unwrap_or(Obs { stage: "abort".into(), detail: "no observation".into() });
+      rep.case(&format!("{}|none|base", bname), false);
+      rep.hit(&format!("base → {}", o.stage));
+      if let Some(sig) = signature("none", &o, text) {
+        rep.disagree(Kind::ImplVsSpec, "base", &sig, &format!("{} | {}", bname, text), &format!("{} {}", o.stage, o.detail), "a model, or an error");
+      }
+      continue;
+    }
+    let doc = match scan(text) {
+      Some(d) => d,
+      None => {
+        rep.notes.push(format!("the XML scanner of the harness cannot read {}; skipped", bname));
+        continue;
+      }
+    };
+    let fs = faults(text, &doc);
+    total_faults += fs.len();
+    let mut w = Work { base: bi, cases: vec![], meta: vec![] };
+    // the unfaulted base itself
+    w.cases.push((0, vec![]));
+    w.meta.push(("none".into(), "base".into()));
+    for f in fs.iter() {
+      let keep = thorough || bi < n_corpus || rng.chance(3, 100);
+      if keep {
+        w.cases.push((w.cases.len(), f.edits.clone()));
+        w.meta.push((f.kind.clone(), f.at.clone()));
+      }
+    }
+    if thorough && !fs.is_empty() {
+      // pairs of faults and byte-level corruption
+      for _ in 0..40 {
+        let a = rng.pick(&fs).clone();
+        let b = rng.pick(&fs).clone();
+        let mut edits = a.edits.clone();
+        edits.extend(b.edits.clone());
+        w.cases.push((w.cases.len(), edits));
+        w.meta.push((format!("pair:{}+{}", a.kind, b.kind), format!("{} + {}", a.at, b.at)));
+      }
+    }
+    let n_bytes = if thorough { 60 } else { 2 };
+    for _ in 0..n_bytes {
+      let mut pos = rng.below(text.len() as u64) as usize;
+      while !text.is_char_boundary(pos) {
+        pos -= 1;
+      }
+      let mut end = (pos + 1 + rng.below(3) as usize).min(text.len());
+      while !text.is_char_boundary(end) {
+        end += 1;
+      }
+      let rep_text = match rng.below(4) {
+        0 => String::new(),
+        1 => rng.pick(&["<", ">", "&", "\"", "'", "/", "=", "#", " ", "</", "<!--"]).to_string(),
+        2 => text[pos..end].repeat(2),
+        _ => "\u{0}".to_string(),
+      };
+      w.cases.push((w.cases.len(), vec![(pos, end, rep_text)]));
+      w.meta.push(("bytes:corrupt".into(), format!("@{}", pos)));
+    }
+    works.push(w);
+  }
+  rep.extra.insert("single_faults_enumerated".into(), json!(total_faults));
+
+  // run: one thread per core, each running batches in child processes
+  let results: Mutex<Vec<(usize, Vec<(usize, Obs)>)>> = Mutex::new(vec![]);
+  let next = std::sync::atomic::AtomicUsize::new(0);
+  std::thread::scope(|s| {
+    for _ in 0..n_threads {
+      s.spawn(|| loop {
+        let k = next.fetch_add(1, std::sync::atomic::Ordering::SeqCst);
+        if k >= works.len() {
+          break;
+        }
+        let w = &works[k];
+        let mut out = vec![];
+        run_cases(&bases[w.base].1, &w.cases, &mut out);
+        results.lock().unwrap().push((k, out));
+      });
+    }
+  });
+  let mut results = results.into_inner().unwrap();
+  results.sort_by_key(|r| r.0);
+  for (k, out) in results {
+    let w = &works[k];
+    let (bname, btext) = &bases[w.base];
+    for (id, obs) in out {
+      let (kind, at) = &w.meta[id];
+      let key = format!("{}|{}|{}", bname, kind, at);
+      rep.case(&key, id != 0);
+      let family = kind.split(':').next().unwrap_or(kind).to_string();
+      rep.hit(&format!("fault {} → {}", if kind.starts_with("pair:") { "pair" } else { kind }, obs.stage));
+      if id == 0 {
+        rep.hit(&format!("base → {}", obs.stage));
+      }
+      let faulted = apply(btext, &w.cases[id].1);
+      if let Some(sig) = signature(kind, &obs, &faulted) {
+        let input = format!("{} | fault {} at {} | {}", bname, kind, at, if faulted.len() < 6000 { faulted } else { format!("(faulted text of {} bytes; edits {:?})", faulted.len(), w.cases[id].1) });
+        rep.disagree(Kind::ImplVsSpec, &family, &sig, &input, &format!("{} {}", obs.stage, obs.detail), "a model, or an error");
+        rep.sample(json!({"base": bname, "fault": kind, "at": at, "observation": format!("{} {}", obs.stage, obs.detail)}));
+      }
+    }
+  }
+  let mut model = Model::start(&cfg.driver);
+  shapes(cfg, &mut rng, &mut model, &mut rep);
+  rep.model_requests = model.requests;
+  rep.exhaustive = thorough;
+  rep
+}
+
+struct G {
+  xml: String,
+  req: String,
+  names: Vec<String>,
+}
+
+/// A random requirement graph (item definitions, input data, knowledge models, decisions, a
+/// decision service) as DMN XML and as the request for the driver.
+fn gen_graph(rng: &mut Rng, force_acyclic: bool) -> G {
+  let n_items = rng.below(4) as usize;
+  let n_inputs = rng.below(3) as usize;
+  let n_bkms = rng.below(4) as usize;
+  let n_decs = 1 + rng.below(3) as usize;
+  let n_svcs = rng.below(2) as usize;
+  let cyclic = !force_acyclic && rng.chance(1, 2);
+  let item_id = |k: usize| k;
+  let input_id = |k: usize| 10 + k;
+  let bkm_id = |k: usize| 20 + k;
+  let dec_id = |k: usize| 30 + k;
+  let svc_id = |k: usize| 40 + k;
+  let mut x = String::new();
+  x.push_str(r#"<?xml version="1.0" encoding="UTF-8"?><definitions namespace="ns" name="m" id="_m" xmlns="https://www.omg.org/spec/DMN/20191111/MODEL/">"#);
+  // item definitions: references go to lower numbers unless `cyclic`
+  fn gen_item(rng: &mut Rng, me: usize, n_items: usize, cyclic: bool, depth: usize, sx: &mut String, xml: &mut String) {
+    let pick_ref = |rng: &mut Rng| -> usize {
+      if cyclic || me == 0 {
+        if rng.chance(1, 8) {
+          7
+        } else {
+          rng.below(n_items as u64) as usize
+        }
+      } else {
+        rng.below(me as u64) as usize
+      }
+    };
+    let can_ref = cyclic || me > 0;
+    match rng.below(if depth < 2 { 6 } else { 4 }) {
+      0 => {
+        sx.push_str("simple");
+        xml.push_str("<typeRef>number</typeRef>");
+      }
+      1 => {
+        sx.push_str("collSimple");
+        xml.push_str("<typeRef>string</typeRef>");
+      }
+      2 | 3 if can_ref => {
+        let r = pick_ref(rng);
+        sx.push_str(&format!("(ref {})", r));
+        xml.push_str(&format!("<typeRef>t{}</typeRef>", r));
+      }
+      2 | 3 => {
+        sx.push_str("simple");
+        xml.push_str("<typeRef>number</typeRef>");
+      }
+      _ => {
+        let n = 1 + rng.below(2) as usize;
+        sx.push_str("(comp");
+        for c in 0..n {
+          sx.push(' ');
+          let coll = rng.chance(1, 3);
+          let mut inner_sx = String::new();
+          let mut inner_xml = String::new();
+          gen_item(rng, me, n_items, cyclic, depth + 1, &mut inner_sx, &mut inner_xml);
+          let (inner_sx, coll) = collify(&inner_sx, coll);
+          sx.push_str(&inner_sx);
+          xml.push_str(&format!("<itemComponent name=\"c{}\"{}>{}</itemComponent>", c, if coll { " isCollection=\"true\"" } else { "" }, inner_xml));
+        }
+        sx.push(')');
+      }
+    }
+  }
+  // turns a generated kind into its collection variant when `coll`
+  fn collify(sx: &str, coll: bool) -> (String, bool) {
+    if sx == "collSimple" {
+      return (sx.to_string(), true);
+    }
+    if !coll {
+      return (sx.to_string(), false);
+    }
+    if sx == "simple" {
+      ("collSimple".to_string(), true)
+    } else if let Some(r) = sx.strip_prefix("(ref ") {
+      (format!("(collRef {}", r), true)
+    } else if let Some(r) = sx.strip_prefix("(comp") {
+      (format!("(collComp{}", r), true)
+    } else {
+      (sx.to_string(), false)
+    }
+  }
+  let mut items_sx = vec![];
+  for k in 0..n_items {
+    let mut sx = String::new();
+    let mut inner = String::new();
+    gen_item(rng, k, n_items, cyclic, 0, &mut sx, &mut inner);
+    let (sx, coll) = collify(&sx, rng.chance(1, 4));
+    x.push_str(&format!("<itemDefinition name=\"t{}\"{}>{}</itemDefinition>", item_id(k), if coll { " isCollection=\"true\"" } else { "" }, inner));
+    items_sx.push(format!("({} {})", item_id(k), sx));
+  }
+  let type_ref = |rng: &mut Rng| -> (String, String) {
+    match rng.below(4) {
+      0 => ("none".to_string(), String::new()),
+      1 => ("builtin".to_string(), " typeRef=\"number\"".to_string()),
+      _ => {
+        if n_items == 0 || rng.chance(1, 10) {
+          ("(named 7)".to_string(), " typeRef=\"t7\"".to_string())
+        } else {
+          let r = rng.below(n_items as u64) as usize;
+          (format!("(named {})", r), format!(" typeRef=\"t{}\"", r))
+        }
+      }
+    }
+  };
+  let mut inputs_sx = vec![];
+  for k in 0..n_inputs {
+    let (mut sx, mut attr) = type_ref(rng);
+    if sx == "none" && !rng.chance(1, 6) {
+      sx = "builtin".to_string();
+      attr = " typeRef=\"string\"".to_string();
+    }
+    x.push_str(&format!("<inputData name=\"in{}\" id=\"_{}\"><variable name=\"in{}\"{}/></inputData>", input_id(k), input_id(k), input_id(k), attr));
+    inputs_sx.push(format!("({} {})", input_id(k), sx));
+  }
+  // knowledge models: requirements to lower numbers unless cyclic
+  let mut bkms_sx = vec![];
+  let mut names = vec![];
+  let mut body = String::new();
+  for k in 0..n_bkms {
+    let mut reqs = vec![];
+    for j in 0..n_bkms {
+      let allowed = cyclic || j < k;
+      if allowed && rng.chance(1, 3) {
+        reqs.push(bkm_id(j));
+      }
+    }
+    if n_svcs > 0 && rng.chance(1, 8) {
+      reqs.push(svc_id(0));
+    }
+    if rng.chance(1, 12) {
+      reqs.push(99);
+    }
+    let (vt_sx, vt_attr) = type_ref(rng);
+    let mut pts = vec![];
+    let mut params = String::new();
+    for pi in 0..rng.below(3) {
+      let (p_sx, p_attr) = type_ref(rng);
+      if p_sx != "none" {
+        pts.push(p_sx.clone());
+      }
+      params.push_str(&format!("<formalParameter name=\"p{}\"{}/>", pi, p_attr));
+    }
+    body.push_str(&format!("<businessKnowledgeModel name=\"bkm{}\" id=\"_{}\"><variable name=\"bkm{}\"{}/><encapsulatedLogic>{}<literalExpression><text>1</text></literalExpression></encapsulatedLogic>", bkm_id(k), bkm_id(k), bkm_id(k), vt_attr, params));
+    for (ri, r) in reqs.iter().enumerate() {
+      body.push_str(&format!("<knowledgeRequirement id=\"_kb{}_{}\"><requiredKnowledge href=\"#_{}\"/></knowledgeRequirement>", k, ri, r));
+    }
+    body.push_str("</businessKnowledgeModel>");
+    bkms_sx.push(format!("({} ({}) ({}) {})", bkm_id(k), reqs.iter().map(|r| r.to_string()).collect::<Vec<_>>().join(" "), pts.join(" "), vt_sx));
+    names.push(format!("bkm{}", bkm_id(k)));
+  }
+  let mut decs_sx = vec![];
+  let mut dec_xml = String::new();
+  for k in 0..n_decs {
+    let (vt_sx, vt_attr) = type_ref(rng);
+    let mut kn = vec![];
+    for j in 0..n_bkms {
+      if rng.chance(1, 3) {
+        kn.push(bkm_id(j));
+      }
+    }
+    if n_svcs > 0 && rng.chance(1, 6) {
+      kn.push(svc_id(0));
+    }
+    if rng.chance(1, 15) {
+      kn.push(98);
+    }
+    let mut info = vec![];
+    for j in 0..n_decs {
+      let allowed = cyclic || j < k;
+      if allowed && rng.chance(1, 3) {
+        info.push((Some(dec_id(j)), None));
+      }
+    }
+    for j in 0..n_inputs {
+      if rng.chance(1, 2) {
+        info.push((None, Some(input_id(j))));
+      }
+    }
+    if rng.chance(1, 12) {
+      info.push((Some(97), Some(96)));
+    }
+    dec_xml.push_str(&format!("<decision name=\"dec{}\" id=\"_{}\"><variable name=\"dec{}\"{}/>", dec_id(k), dec_id(k), dec_id(k), vt_attr));
+    for (ri, (a, b)) in info.iter().enumerate() {
+      dec_xml.push_str(&format!("<informationRequirement id=\"_ir{}_{}\">", k, ri));
+      if let Some(a) = a {
+        dec_xml.push_str(&format!("<requiredDecision href=\"#_{}\"/>", a));
+      }
+      if let Some(b) = b {
+        dec_xml.push_str(&format!("<requiredInput href=\"#_{}\"/>", b));
+      }
+      dec_xml.push_str("</informationRequirement>");
+    }
+    for (ri, r) in kn.iter().enumerate() {
+      dec_xml.push_str(&format!("<knowledgeRequirement id=\"_kd{}_{}\"><requiredKnowledge href=\"#_{}\"/></knowledgeRequirement>", k, ri, r));
+    }
+    dec_xml.push_str("<literalExpression><text>1</text></literalExpression></decision>");
+    let o = |v: &Option<usize>| v.map(|n| n.to_string()).unwrap_or_else(|| "none".to_string());
+    decs_sx.push(format!(
+      "({} {} ({}) ({}))",
+      dec_id(k),
+      vt_sx,
+      kn.iter().map(|r| r.to_string()).collect::<Vec<_>>().join(" "),
+      info.iter().map(|(a, b)| format!("({} {})", o(a), o(b))).collect::<Vec<_>>().join(" ")
+    ));
+    names.push(format!("dec{}", dec_id(k)));
+  }
+  let mut svcs_sx = vec![];
+  let mut svc_xml = String::new();
+  for k in 0..n_svcs {
+    let (vt_sx, vt_attr) = type_ref(rng);
+    let pick = |rng: &mut Rng, n: usize, f: &dyn Fn(usize) -> usize| -> Vec<usize> { (0..n).filter(|_| rng.chance(1, 3)).map(f).collect() };
+    let ind = pick(rng, n_inputs, &input_id);
+    let inp = pick(rng, n_decs, &dec_id);
+    let enc = pick(rng, n_decs, &dec_id);
+    let mut out = pick(rng, n_decs, &dec_id);
+    if out.is_empty() {
+      out.push(dec_id(0));
+    }
+    svc_xml.push_str(&format!("<decisionService name=\"svc{}\" id=\"_{}\"><variable name=\"svc{}\"{}/>", svc_id(k), svc_id(k), svc_id(k), vt_attr));
+    for r in &out {
+      svc_xml.push_str(&format!("<outputDecision href=\"#_{}\"/>", r));
+    }
+    for r in &enc {
+      svc_xml.push_str(&format!("<encapsulatedDecision href=\"#_{}\"/>", r));
+    }
+    for r in &inp {
+      svc_xml.push_str(&format!("<inputDecision href=\"#_{}\"/>", r));
+    }
+    for r in &ind {
+      svc_xml.push_str(&format!("<inputData href=\"#_{}\"/>", r));
+    }
+    svc_xml.push_str("</decisionService>");
+    let l = |v: &Vec<usize>| v.iter().map(|r| r.to_string()).collect::<Vec<_>>().join(" ");
+    svcs_sx.push(format!("({} {} ({}) ({}) ({}) ({}))", svc_id(k), vt_sx, l(&ind), l(&inp), l(&enc), l(&out)));
+    names.push(format!("svc{}", svc_id(k)));
+  }
+  // document order by kind does not matter to the parser (it collects kind by kind)
+  x.push_str(&dec_xml);
+  x.push_str(&body);
+  x.push_str(&svc_xml);
+  x.push_str("</definitions>");
+  let req = format!("(c12 graph ({}) ({}) ({}) ({}) ({}))", items_sx.join(" "), inputs_sx.join(" "), bkms_sx.join(" "), decs_sx.join(" "), svcs_sx.join(" "));
+  G { xml: x, req, names }
+}
+
+/// Model part: generated decision-table shapes and requirement graphs, implementation
+/// against `Dmn.MB` / `Dmn.DT` through the driver.
+fn shapes(cfg: &Cfg, rng: &mut Rng, model: &mut Model, rep: &mut Report) {
+  let thorough = cfg.tier == "thorough";
+  // the hook of `main` is silent; record the panic site for in-process cases
+  std::panic::set_hook(Box::new(|info| {
+    if let Some(l) = info.location() {
+      if let Ok(mut g) = LAST_PANIC.lock() {
+        *g = strip_site(l.file(), l.line());
+      }
+    }
+  }));
+  // ---- decision-table shapes
+  let policies: [(&str, Option<&str>); 11] = [
+    ("UNIQUE", None),
+    ("ANY", None),
+    ("PRIORITY", None),
+    ("FIRST", None),
+    ("RULE ORDER", None),
+    ("OUTPUT ORDER", None),
+    ("COLLECT", None),
+    ("COLLECT", Some("SUM")),
+    ("COLLECT", Some("MIN")),
+    ("COLLECT", Some("MAX")),
+    ("COLLECT", Some("COUNT")),
+  ];
+  let n_dt = if thorough { 20_000 } else { 2_000 };
+  let mut reqs = vec![];
+  let mut obs = vec![];
+  let mut inputs = vec![];
+  for k in 0..n_dt {
+    let (hp, agg) = policies[k % policies.len()];
+    let n_in = rng.below(4) as usize;
+    let n_out = rng.below(4) as usize;
+    let n_rules = rng.below(4) as usize;
+    let exact = rng.chance(1, 3);
+    let rules: Vec<(usize, usize)> = (0..n_rules)
+      .map(|_| if exact { (n_in, n_out) } else { (rng.below(5) as usize, rng.below(5) as usize) })
+      .collect();
+    let mut x = String::new();
+    x.push_str(r#"<?xml version="1.0" encoding="UTF-8"?><definitions namespace="ns" name="m" id="_m" xmlns="https://www.omg.org/spec/DMN/20191111/MODEL/">"#);
+    x.push_str(r##"<decision name="D" id="_d"><variable name="D"/><informationRequirement id="_r1"><requiredInput href="#_i1"/></informationRequirement>"##);
+    x.push_str(&format!("<decisionTable hitPolicy=\"{}\"", hp));
+    if let Some(a) = agg {
+      x.push_str(&format!(" aggregation=\"{}\"", a));
+    }
+    x.push('>');
+    for _ in 0..n_in {
+      x.push_str("<input><inputExpression><text>i1</text></inputExpression></input>");
+    }
+    for i in 0..n_out {
+      x.push_str(&format!("<output name=\"o{}\"/>", i + 1));
+    }
+    for (a, b) in &rules {
+      x.push_str("<rule>");
+      for _ in 0..*a {
+        x.push_str("<inputEntry><text>-</text></inputEntry>");
+      }
+      for _ in 0..*b {
+        x.push_str("<outputEntry><text>1</text></outputEntry>");
+      }
+      x.push_str("</rule>");
+    }
+    x.push_str(r#"</decisionTable></decision><inputData name="i1" id="_i1"><variable typeRef="number" name="i1"/></inputData></definitions>"#);
+    let req = format!(
+      "(c12 dt {} {} {} {} ({}))",
+      Sexp::str(hp),
+      match agg {
+        Some(a) => Sexp::str(a).to_string(),
+        None => "none".to_string(),
+      },
+      n_in,
+      n_out,
+      rules.iter().map(|(a, b)| format!("({} {})", a, b)).collect::<Vec<_>>().join(" ")
+    );
+    // implementation, in-process
+    *LAST_PANIC.lock().unwrap() = String::new();
+    let short = |s: String| s.rsplit('/').next().unwrap_or("").to_string();
+    let o = match util::guarded(|| dmntk_model::parse(&x)) {
+      Err(_) => format!("((panic-parse {}) -)", short(LAST_PANIC.lock().unwrap().clone())),
+      Ok(Err(_)) => "(parse-error -)".to_string(),
+      Ok(Ok(d)) => match util::guarded(|| ModelEvaluator::new(&d)) {
+        Err(_) => format!("((panic {}) -)", short(LAST_PANIC.lock().unwrap().clone())),
+        Ok(Err(_)) => "(error -)".to_string(),
+        Ok(Ok(me)) => {
+          let ctx = dmntk_feel_evaluator::evaluate_context(&dmntk_feel::Scope::default(), "{i1: 1}").unwrap_or_default();
+          match util::guarded(|| me.evaluate_invocable("D", &ctx)) {
+            Err(_) => format!("(ok (panic {}))", short(LAST_PANIC.lock().unwrap().clone())),
+            Ok(v) => match crate::c03::value_sexp(&v) {
+              Some(sx) => format!("(ok (ok {}))", sx),
+              None => format!("(ok (unsupported {}))", v),
+            },
+          }
+        }
+      },
+    };
+    reqs.push(req);
+    obs.push(o);
+    inputs.push(x);
+  }
+  let answers = model.ask_batch(&reqs);
+  for ((req, o), (ans, x)) in reqs.iter().zip(obs.iter()).zip(answers.iter().zip(inputs.iter())) {
+    rep.case(req, true);
+    let stage = if o.starts_with("((panic") {
+      "panic in ModelEvaluator::new"
+    } else if o.contains("(ok (panic") {
+      "panic in evaluate_invocable"
+    } else if o.starts_with("(error") {
+      "build error"
+    } else {
+      "value"
+    };
+    rep.hit(&format!("table shape → {}", stage));
+    if o != ans {
+      rep.disagree(Kind::ImplVsModel, "dt-shape", "decision-table shape: implementation outcome differs from the builder model", &format!("{} | {}", req, x), o, ans);
+    }
+    if o.contains("panic") {
+      // the property itself: no panic
+      let site = Sexp::parse(o).map(|s| s.to_string()).unwrap_or_default();
+      let site = site.split("decision_table.rs:").nth(1).map(|t| t.chars().take_while(|c| c.is_ascii_digit()).collect::<String>()).unwrap_or_default();
+      let sig = format!("{} at model-evaluator/src/builders/decision_table.rs:{}", stage, site);
+      rep.disagree(Kind::ImplVsSpec, "dt-shape", &sig, &format!("{} | {}", req, x), o, "a model, or an error");
+    }
+  }
+
+  // ---- requirement graphs
+  let n_graphs = if thorough { 6_000 } else { 500 };
+  let mut graphs: Vec<G> = vec![];
+  for _ in 0..n_graphs {
+    graphs.push(gen_graph(rng, false));
+  }
+  let greqs: Vec<String> = graphs.iter().map(|g| g.req.clone()).collect();
+  let ganswers = model.ask_batch(&greqs);
+  // implementation: one child batch per graph; case 0 builds only, case k evaluates invocable k
+  let n_threads = std::thread::available_parallelism().map(|n| n.get()).unwrap_or(4).min(16);
+  let results: Mutex<Vec<(usize, Vec<(usize, Obs)>)>> = Mutex::new(vec![]);
+  let next = std::sync::atomic::AtomicUsize::new(0);
+  std::thread::scope(|s| {
+    for _ in 0..n_threads {
+      s.spawn(|| loop {
+        let k = next.fetch_add(1, std::sync::atomic::Ordering::SeqCst);
+        if k >= graphs.len() {
+          break;
+        }
+        let g = &graphs[k];
+        let mut cases = vec![(0usize, vec![])];
+        let mut only = vec!["-".to_string()];
+        for (i, n) in g.names.iter().enumerate() {
+          cases.push((i + 1, vec![]));
+          only.push(n.clone());
+        }
+        let mut out = vec![];
+        run_cases_only(&g.xml, &cases, &only, &mut out);
+        out.sort_by_key(|o| o.0);
+        results.lock().unwrap().push((k, out));
+      });
+    }
+  });
+  let mut results = results.into_inner().unwrap();
+  results.sort_by_key(|r| r.0);
+  for (k, out) in results {
+    let g = &graphs[k];
+    let ans = &ganswers[k];
+    rep.case(&g.req, true);
+    let parsed = Sexp::parse(ans);
+    let parts = match parsed.as_ref().and_then(|p| p.as_list()) {
+      Some([b, d, bk, sv]) => (b.to_string(), d.clone(), bk.clone(), sv.clone()),
+      _ => {
+        rep.disagree(Kind::ImplVsModel, "graph", "driver-error", &g.req, "", ans);
+        continue;
+      }
+    };
+    let build_obs = out.iter().find(|o| o.0 == 0).map(|o| o.1.clone());
+    let impl_build = match &build_obs {
+      Some(o) if o.stage == "ok" => "ok",
+      Some(o) if o.stage == "build-error" => "error",
+      Some(o) if o.stage == "abort" && o.detail.contains("during build") => "diverge",
+      Some(o) if o.stage == "parse-error" => "parse-error",
+      _ => "other",
+    };
+    rep.hit(&format!("graph build → {}", impl_build));
+    let input = format!("{} | {}", g.req, g.xml);
+    if impl_build != parts.0 {
+      rep.disagree(Kind::ImplVsModel, "graph", "requirement graph: ModelEvaluator::new outcome differs from the traversal model", &input, &format!("{:?}", build_obs), &parts.0);
+    }
+    if impl_build == "diverge" {
+      let sig = signature("graph", build_obs.as_ref().unwrap(), &g.xml).unwrap_or_default();
+      rep.disagree(Kind::ImplVsSpec, "graph", &sig, &input, &format!("{:?}", build_obs), "a model, or an error");
+    }
+    if impl_build != "ok" {
+      continue;
+    }
+    // evaluation per invocable
+    let mut expected: std::collections::HashMap<String, String> = std::collections::HashMap::new();
+    for (grp, prefix) in [(&parts.1, "dec"), (&parts.2, "bkm"), (&parts.3, "svc")] {
+      if let Some(l) = grp.as_list() {
+        for e in l {
+          if let Some([id, r]) = e.as_list() {
+            expected.insert(format!("{}{}", prefix, id), r.to_string());
+          }
+        }
+      }
+    }
+    for (i, n) in g.names.iter().enumerate() {
+      let o = out.iter().find(|o| o.0 == i + 1).map(|o| o.1.clone());
+      let impl_eval = match &o {
+        Some(o) if o.stage == "ok" => "ok",
+        Some(o) if o.stage == "abort" && o.detail.contains("during eval") => "diverge",
+        _ => "other",
+      };
+      rep.hit(&format!("graph eval → {}", impl_eval));
+      let exp = expected.get(n).cloned().unwrap_or_default();
+      if impl_eval != exp {
+        rep.disagree(Kind::ImplVsModel, "graph", "requirement graph: evaluate_invocable outcome differs from the traversal model", &format!("invocable {} | {}", n, input), &format!("{:?}", o), &exp);
+      }
+      if impl_eval != "ok" {
+        if let Some(o) = &o {
+          let sig = signature("graph", o, &g.xml).unwrap_or_else(|| format!("unexpected outcome {:?}", o));
+          rep.disagree(Kind::ImplVsSpec, "graph", &sig, &format!("invocable {} | {}", n, input), &format!("{:?}", o), "a value");
+        }
+      }
+    }
+  }
 }
